@@ -1,9 +1,11 @@
 import Driver.RangeSplit
+import Driver.Path
 /-! `driver <model>`: one op per stdin line, one canonical result line per op on stdout. -/
 
 def dispatch (model : String) : Option (List String → String) :=
   match model with
   | "rs" => some Driver.RangeSplit.step
+  | "path" => some Driver.Path.step
   | _ => none
 
 partial def loop (h : IO.FS.Stream) (out : IO.FS.Stream) (f : List String → String) : IO Unit := do
